@@ -617,10 +617,10 @@ func scopeListPkg() *SrcPkg {
 	sp.Files = []SrcFile{
 		{Name: "a.go", Decls: "type LA interface{ M(afoo int, x @{~/a/foo}.T) }\n\ntype LD interface{ D(@{~/a/foo}.T) @{~/a/foo}.T }\n"},
 		{Name: "b.go", Decls: "type LB interface{ N(y @{~/b/foo}.T) }\n"},
-		{Name: "k.go", Decls: "type LK[K @{~/a/foo}.Ord] interface{ Key(k K) K }\n"},
+		{Name: "k.go", Decls: "type LK[K @{~/a/foo}.Ord] interface{ Key(k K) K }\n\ntype LM[K @{~/a/foo}.I] interface{ Use(k K) }\n"},
 		{Name: "c.go", Decls: "type LC interface{ P(s string, t @{time}.Time) error }\n\ntype LE[T any] interface{ Q(T) (T, error) }\n\ntype LF interface{ R(Loc) }\n\ntype LZ interface{}\n\ntype LG = interface{ Do(int) }\n\ntype LH = interface{ Do(s string) error }\n"},
 	}
-	for _, n := range []string{"LA", "LB", "LC", "LD", "LE", "LF", "LG", "LH", "LZ", "LK"} {
+	for _, n := range []string{"LA", "LB", "LC", "LD", "LE", "LF", "LG", "LH", "LZ", "LK", "LM"} {
 		sp.Ifaces = append(sp.Ifaces, IfaceCase{Name: n, Scope: "S-list"})
 	}
 	return sp
@@ -662,6 +662,9 @@ func scopeListArgs() [][]string {
 		l[j] = l[j] + ":Custom" + l[j]
 		out = append(out, l)
 	}
+	// a generic interface whose constraint is a method interface of a package that is re-aliased
+	// by a later argument (and the other order)
+	out = append(out, []string{"LM"}, []string{"LM", "LB"}, []string{"LB", "LM"}, []string{"LM", "LC", "LB"}, []string{"LK", "LM", "LB"})
 	// duplicates of the same interface under two mock names
 	out = append(out, []string{"LA", "LA:Second"}, []string{"LF:One", "LF:Two", "LB"})
 	// interfaces declared as aliases of interface literals whose methods share a name
